@@ -22,7 +22,8 @@ import (
 
 // OpRec is one operation of a history at the client boundary.
 //
-//	sub   : Call = request issued,  Ret = first ping observed by the client (or ServeHTTP returned)
+//	sub   : Call = request issued,  Ret = first bytes (any frame: comment, keep-alive, event) or
+//	        flush the client's writer received from ServeHTTP (or ServeHTTP returned)
 //	unsub : Call = context cancelled / connection broke, Ret = ServeHTTP returned
 //	bcast : Call/Ret around Handler.Send; R = clients whose writer received the event (bitmask)
 type OpRec struct {
@@ -49,7 +50,9 @@ type HistRec struct {
 	LeakStacks string         `json:"leak_stacks,omitempty"`
 	Hooks      map[string]int `json:"hooks"`
 	Aborted    bool           `json:"aborted"`
-	Pings      int            `json:"pings"`
+	Pings      int            `json:"pings"`             // events with data "ping" (the implementation's keep-alive today)
+	Comments   int            `json:"comments"`          // SSE comment lines (": ...")
+	Other      int            `json:"other_frames"`      // any other frame the implementation chose to send; never judged
 	Slow       bool           `json:"slow,omitempty"`    // some wait of the harness ran into its watchdog
 	Skipped    bool           `json:"skipped,omitempty"` // not executed: the child had already met 3 slow histories
 }
@@ -80,7 +83,11 @@ type client struct {
 	hdr        http.Header
 	buf        []byte
 	events     map[int]int // event index -> times received
-	firstPing  int64
+	evType     string      // SSE parser state: fields of the event being assembled
+	evData     []string
+	evHasData  bool
+	firstByte  int64 // subscription established: first bytes seen by the writer
+	flushed    bool
 	stalled    bool
 	inWrite    bool
 	failWrites bool
@@ -94,7 +101,17 @@ type client struct {
 
 func (c *client) Header() http.Header { return c.hdr }
 func (c *client) WriteHeader(int)     {}
-func (c *client) Flush()              {}
+func (c *client) Flush() {
+	c.d.mu.Lock()
+	// A flush tells the harness that the response has started (so "awaitsub"
+	// need not wait for bytes), but the subscription counts as established in
+	// the history only at the first BYTES — the weaker, later boundary.
+	if !c.flushed {
+		c.flushed = true
+		c.d.cond.Broadcast()
+	}
+	c.d.mu.Unlock()
+}
 
 func (c *client) Write(b []byte) (int, error) {
 	d := c.d
@@ -109,49 +126,90 @@ func (c *client) Write(b []byte) (int, error) {
 	if c.failWrites {
 		return 0, errors.New("write: connection reset by peer")
 	}
-	c.buf = append(c.buf, b...)
-	for {
-		i := bytes.Index(c.buf, []byte("\n\n"))
-		if i < 0 {
-			break
-		}
-		frame := string(c.buf[:i])
-		c.buf = c.buf[i+2:]
-		typ, data, ok := "", "", true
-		for _, l := range strings.Split(frame, "\n") {
-			switch {
-			case strings.HasPrefix(l, "event: "):
-				typ = l[7:]
-			case strings.HasPrefix(l, "data: "):
-				data = l[6:]
-			default:
-				ok = false
-			}
-		}
-		switch {
-		case ok && typ == "message" && data == "ping":
-			d.rec.Pings++
-			if c.firstPing == 0 {
-				c.firstPing = now()
-			}
-		case ok && typ == "message" && data == d.evPrefix+"barrier":
-			c.barrier = true
-		case ok && typ == "message" && strings.HasPrefix(data, d.evPrefix):
-			e, err := strconv.Atoi(data[len(d.evPrefix):])
-			if err != nil || d.sends[e] == nil {
-				d.rec.Phantom = append(d.rec.Phantom, fmt.Sprintf("c%d received %q which was never broadcast", c.id, frame))
-				break
-			}
-			c.events[e]++
-			if c.events[e] > 1 {
-				d.rec.Dups++
-			}
-		default:
-			d.rec.Phantom = append(d.rec.Phantom, fmt.Sprintf("c%d received %q which was never broadcast", c.id, frame))
-		}
+	if c.firstByte == 0 && len(b) > 0 {
+		c.firstByte = now()
 	}
+	c.buf = append(c.buf, b...)
+	c.parse()
 	d.cond.Broadcast()
 	return len(b), nil
+}
+
+// parse consumes complete lines of the text/event-stream format (WHATWG HTML
+// "9.2.6 Interpreting an event stream"): lines end with LF, CRLF or CR; a line
+// starting with ':' is a comment; "field: value" with one optional space after
+// the colon; a line without colon is a field with empty value; data fields
+// accumulate, joined by LF; a blank line dispatches the event — unless it has
+// no data field, in which case nothing is dispatched. Called with d.mu held.
+func (c *client) parse() {
+	for {
+		i := bytes.IndexAny(c.buf, "\r\n")
+		if i < 0 {
+			return
+		}
+		adv := i + 1
+		if c.buf[i] == '\r' {
+			if i+1 >= len(c.buf) {
+				return // CR at the end of what we have: wait to see whether LF follows
+			}
+			if c.buf[i+1] == '\n' {
+				adv++
+			}
+		}
+		line := string(c.buf[:i])
+		c.buf = c.buf[adv:]
+		switch {
+		case line == "":
+			if c.evHasData {
+				c.dispatch(c.evType, strings.Join(c.evData, "\n"))
+			} else if c.evType != "" {
+				c.d.rec.Other++ // an event without data is not dispatched
+			}
+			c.evType, c.evData, c.evHasData = "", nil, false
+		case line[0] == ':':
+			c.d.rec.Comments++
+		default:
+			name, value := line, ""
+			if k := strings.IndexByte(line, ':'); k >= 0 {
+				name, value = line[:k], strings.TrimPrefix(line[k+1:], " ")
+			}
+			switch name {
+			case "event":
+				c.evType = value
+			case "data":
+				c.evData = append(c.evData, value)
+				c.evHasData = true
+			case "id", "retry":
+			default: // unknown fields are ignored
+			}
+		}
+	}
+}
+
+// dispatch is what the browser's EventSource would hand to the page. Only
+// events whose data carries this history's prefix are judged: they must be a
+// broadcast of this history with the type it was sent with. Keep-alive pings
+// and anything else the implementation chooses to send are counted only.
+func (c *client) dispatch(typ, data string) {
+	d := c.d
+	switch {
+	case data == d.evPrefix+"barrier":
+		c.barrier = true
+	case strings.HasPrefix(data, d.evPrefix):
+		e, err := strconv.Atoi(data[len(d.evPrefix):])
+		if err != nil || d.sends[e] == nil || (typ != "" && typ != "message") {
+			d.rec.Phantom = append(d.rec.Phantom, fmt.Sprintf("c%d received event type %q data %q which was never broadcast", c.id, typ, data))
+			return
+		}
+		c.events[e]++
+		if c.events[e] > 1 {
+			d.rec.Dups++
+		}
+	case data == "ping":
+		d.rec.Pings++
+	default:
+		d.rec.Other++
+	}
 }
 
 type sendRec struct {
@@ -262,8 +320,8 @@ func (d *director) step(st Step) bool {
 		fallthrough
 	case "awaitsub":
 		c := cl()
-		if !d.wait(func() bool { return c.firstPing != 0 || c.exited }, d.wd) {
-			d.note(&d.rec.Watchdog, "awaitsub c%d: no ping within %v", st.C, d.wd)
+		if !d.wait(func() bool { return c.firstByte != 0 || c.flushed || c.exited }, d.wd) {
+			d.note(&d.rec.Watchdog, "awaitsub c%d: ServeHTTP sent nothing within %v", st.C, d.wd)
 			return false
 		}
 	case "cancel":
@@ -537,7 +595,7 @@ func (d *director) teardown() {
 	d.mu.Lock()
 	defer d.mu.Unlock()
 	for id, c := range d.clients {
-		ret := c.firstPing
+		ret := c.firstByte
 		if ret == 0 || (c.exited && c.exitT < ret) {
 			ret = c.exitT
 		}
